@@ -24,7 +24,7 @@ RULE = ('one case = (2-4 measurement declarations from a pool of 14: scalar / 1-
         'dimensioned without coordinates; values from ints, floats around limits, None, NaN, '
         '+-inf, strings, bools; body catches per-operation exceptions or not; the phase ends by '
         'CONTINUE / SKIP / REPEAT at its limit / STOP / FAIL_AND_CONTINUE; diagnosis for '
-        'conditional validators present (ordinary or internal diagnosis) or absent); optionally a late same-value write through a handle kept from the finished phase; all histories of length <= 2 (quick) / 3 '
+        'conditional validators present (ordinary or internal diagnosis) or absent); optionally a late same-value write through a handle kept from the finished phase; optionally the running phase is a with_args() derivation of the declared one; all histories of length <= 2 (quick) / 3 '
         '(thorough) over a reduced alphabet are enumerated, longer ones are sampled; distinct '
         '= distinct case; non-trivial = at least one snapshot was compared')
 ASSUMPTIONS = [
